@@ -36,6 +36,23 @@ def call_on_var(method, var=None, prefix=False):
     return p
 
 
+def is_file_load(prog, x):
+    """The call that reads and parses the dyndep file: it reaches Parser::Load (DyndepLoader::LoadDyndepFile today; a
+    helper that replaces it, or the parser used directly, are the same thing)."""
+    if not (isinstance(x, dict) and x.get('k') == 'call') or lastname(x.get('name') or '') == 'LoadDyndeps':
+        return False
+    pl = prog.fn('Parser::Load').id
+    cache = prog.__dict__.setdefault('_reach_load', {})
+    for t in prog.call_targets(x):
+        if t not in prog.functions:
+            continue
+        if t not in cache:
+            cache[t] = pl in prog.reachable_fns([t])
+        if cache[t]:
+            return True
+    return False
+
+
 def evalstring_empty(var):
     """atom is EvalString::empty() (inlined) on the local with exactly this name."""
     def p(a):
@@ -169,7 +186,7 @@ def run(ctx):
               True, 'X9 edge not mentioned in its dyndep file (`find(edge) == end()`)', 'X9:edge-not-mentioned')
     reject_if(ctx, 'C11.X', ld, lambda a: mentions_field(a, 'Dyndeps::used_'), False,
               'X10 dyndep file mentions a statement without a binding for it', 'X10:extra-entry')
-    reject_if(ctx, 'C11.X', ld, lambda a: mentions_call(a, 'DyndepLoader::LoadDyndepFile'), False,
+    reject_if(ctx, 'C11.X', ld, lambda a: any(is_file_load(prog, x) for x in walk(a)), False,
               'dyndep file missing / unreadable / malformed', 'X:load-failed')
     reject_if(ctx, 'C11.X', ld, lambda a: mentions_call(a, 'DyndepLoader::UpdateEdge'), False,
               'edge update failed', 'X:update-failed')
@@ -269,7 +286,7 @@ def run(ctx):
             ctx.check('C11.W1', ok, f.name, 'pending=false:site', f.where(e),
                       'set_dyndep_pending(false) in %s' % f.name)
             if ok:
-                lf = list(f.calls('DyndepLoader::LoadDyndepFile'))
+                lf = [x for x in f.events('call') if is_file_load(prog, x)]
                 ctx.check('C11.W1', bool(lf) and all(f.dominates_ev(e, x) for x in lf), f.name,
                           'pending=false:not-at-entry', f.where(e),
                           'the flag is cleared before the file is loaded (a failed load is not retried)')
